@@ -1,20 +1,27 @@
 """C08 - Writer produces the complete file or throws; OS write errors are never lost (DESIGN.md section 5, C08)."""
 LEVEL = "fault_enumeration"
-RULE = ("fault plans enumerated on the real osmium::io::Writer (real write thread, pool, zlib, libbz2), one forked child per case: "
+RULE = ("fault plans enumerated on the real osmium::io::Writer (real write thread, pool, zlib, libbz2) in forked children: "
         "{xml, opl, pbf} x {none, gz, bz2} x fsync {no, yes} x histories of operator()(Buffer), operator()(Item), flush(), close() "
-        "(A: 3 buffers, 1.3-5 KiB of output; B: A with a 512 byte internal buffer; L: output larger than the zlib/stdio buffers; "
-        "H: 650 KB of XML, so that BZ2_bzWrite/gzwrite themselves write) x output queue/pool sizes x fast|paced producer. Per configuration the plan list is: "
-        "RLIMIT_FSIZE = o for every byte offset o of the fault-free output (kernel EFBIG after a partial write); the same offsets with "
-        "ENOSPC/EIO through interposed write() (plain, gzip) or fwrite() (bzip2); the n-th write/fsync/close/fwrite/fflush/fclose fails "
-        "(ENOSPC and EIO) for every n up to the call count of the fault-free run; the n-th write fails with EINTR once; every write "
-        "transfers at most m bytes for every m below the longest write; OPL encoder failure (invalid way node location with "
-        "locations_on_ways) at every way position. quick strides the offsets (7|61|9973 + buffer boundaries +-1 + the last 12) for all but "
-        "history A/fast; thorough enumerates every offset for histories A and B (all offset plans) and for history L (RLIMIT_FSIZE plans with fsync; the rest strided by 13). Oracle: either a call threw, or close() returned the "
-        "file's size and the file - decompressed by an own inflate/BZ2 loop that demands complete framing - decodes with the Reader to "
-        "exactly the abstract objects handed over; a fired error plan followed by success is 'error-lost'; after an exception from "
-        "operator()/flush() further operator() calls must throw; thread count before == after; crash/hang of the child is a violation "
-        "(hang re-run alone with x10 limit). distinct_nontrivial = plans whose injector fired (injected or observed failing call > 0). "
-        "Second harness (vsched): the Writer with a failing mock compressor / mock encoder under every schedule with <= 1 deviation.")
+        "(A: 3 buffers, 0.6-4 KiB of output; B: A with a 512 byte internal buffer; L: 14-44 KiB, larger than the zlib/stdio buffers; "
+        "H: 650 KB of XML through gz/bz2 so that gzwrite/BZ2_bzWrite themselves write; E: OPL with locations_on_ways) x output "
+        "queue {2,3,20} / pool {1,2} x fast|paced producer. Plan list per configuration (lengths taken from a fault-free dry run): "
+        "RLIMIT_FSIZE = o for every byte offset o of the output (kernel: partial write up to o, then EFBIG - also inside stdio); the "
+        "same offsets with ENOSPC/EIO through interposed write() (plain, gzip) or fwrite() (bzip2); the n-th "
+        "write/fsync/close/fwrite/fflush/fclose on the output fails (ENOSPC and EIO) for every n; the n-th write fails once with "
+        "EINTR; every write transfers at most m bytes for every m below the longest write; the OPL encoder throws (invalid way node "
+        "location) for every way position. quick: every offset for history A/fast through RLIMIT_FSIZE with fsync, strides 7 (rest of A, B), 127 (L), 9973 (H, kernel "
+        "faults only) + buffer boundaries (4096/5000/8192/... +-1) + the last 12 offsets elsewhere; thorough: every offset for A and B "
+        "(all offset plans), every offset for L through RLIMIT_FSIZE with fsync, strides 13 (rest of L) and 997 (H). Oracle per case: "
+        "either a call threw, or close() returned the file's size and the file - decompressed by an own inflate / BZ2_bzDecompress "
+        "loop that demands complete framing and no trailing bytes - decodes with the Reader to exactly the abstract objects handed "
+        "over; an error plan whose injector fired followed by success is 'error-lost'; after an exception from operator()/flush() "
+        "further operator() calls must throw; thread count afterwards == before; a crashing or hanging child is a violation (hang: "
+        "re-run alone with a x10 limit; SIGKILL from outside: re-run, never a verdict). evaluations = (configuration, plan) pairs run; "
+        "distinct_nontrivial = those whose injector fired (changed or saw a failing libc call on the output file / bad object handed "
+        "over). Second harness (vsched, counted separately as schedules_*): the Writer with a mock compressor whose constructor / j-th "
+        "write / close throws, or the OPL encoder failing in the pool worker, fast and paced producer, under every schedule with <= 1 "
+        "(thorough <= 2) deviations: an exception must surface in every schedule, no deadlock/livelock/leaked thread, fault-free "
+        "schedules deliver the reference bytes.")
 DEADLINE = {"quick": 200, "thorough": 1100}
 
 
@@ -39,5 +46,8 @@ def run(ctx):
     ctx.cov.update(before)
     if ctx.cov.get("rlimit_plans_not_fired", 0):
         ctx.notes.append("%d RLIMIT_FSIZE plans below the output size did not make any libc call fail" % ctx.cov["rlimit_plans_not_fired"])
-    ctx.assume("output of the fault-free run is deterministic in size and in the number of libc calls (measured per configuration by a "
-               "dry run); real threads: which call reports the error depends on timing, the verdict does not")
+    ctx.assume("the fault-free output is deterministic in size and in the number of libc calls (measured per configuration by a dry "
+               "run whose file is verified); real threads in the fault harness: which call reports the error depends on timing, the "
+               "verdict does not (the interleaving axis is covered by the vsched harness: sequentially consistent scheduler, no "
+               "spurious wake-ups); bzip2 output goes through stdio, whose write() inside libc cannot be interposed: ENOSPC/EIO at a "
+               "byte offset are modelled at the fwrite/fflush/fclose level there, the kernel fault (EFBIG) covers every path")
